@@ -11,6 +11,7 @@ package main
 //        n2 S R W N1 N2             two island calls with different N on the same objects (cache)
 //        load PATH                  name.Load in both packages
 //        pair S R W S' R' W' DEPTH PER   two names, their locations, equal or not
+//        path2 S R W I1 D1 P1 I2 D2 P2   two GetFullHashPath calls with different arguments on one name object
 //        chain S R W N DEPTH PER          the name is built step by step, island / path are asked on the sanctuary- and realm-level
 //                                       objects first; the finished name must answer like a freshly built one
 //        routes N FROM-TO,…             the SDK client's routing table over real TLS stub servers: see c20route.go
@@ -26,6 +27,7 @@ package main
 
 import (
 	"bufio"
+	"bytes"
 	"encoding/hex"
 	"fmt"
 	"math"
@@ -214,6 +216,10 @@ func c20Gen(rng *rand.Rand, tier string, w *bufio.Writer) {
 		fmt.Fprintf(w, "load %s\n", c20Hex([]byte(p)))
 	}
 	fmt.Fprintf(w, "n2 %s %s %s 1000 10\n", c20Hex([]byte("users")), c20Hex([]byte("profiles")), c20Hex([]byte("alice")))
+	fmt.Fprintf(w, "path2 %s %s %s 1 1 1000 2 1 1000\n", c20Hex([]byte("users")), c20Hex([]byte("profiles")), c20Hex([]byte("alice")))
+	// the same visible name in NFC and in NFD: two different names
+	emitPair([3][]byte{[]byte("caf\u00e9"), []byte("b"), []byte("c")}, [3][]byte{[]byte("cafe\u0301"), []byte("b"), []byte("c")}, 1, 1000)
+	emitN(bytes.Repeat([]byte("s"), 5000), bytes.Repeat([]byte("é"), 3000), bytes.Repeat([]byte{0xff}, 4097), 1000, 3, 2000)
 	// crafted short hashes: at the shipped configuration, at the rig configuration, at depth 2
 	for i := 0; i < 24; i++ {
 		digits := 1 + rng.Intn(8)
@@ -282,6 +288,9 @@ func c20Gen(rng *rand.Rand, tier string, w *bufio.Writer) {
 				d, p = defD, defP
 			}
 			emitN(s, r, sw, c20N(rng), d, p)
+		case x < 11 && rng.Intn(4) == 0:
+			fmt.Fprintf(w, "path2 %s %s %s %d %d %d %d %d %d\n", c20Hex(s), c20Hex(r), c20Hex(sw), 1+rng.Intn(1000), rng.Intn(4), 1+rng.Intn(3000),
+				1+rng.Intn(1000), rng.Intn(4), 1+rng.Intn(3000))
 		case x < 12:
 			fmt.Fprintf(w, "chain %s %s %s %d %d %d\n", c20Hex(s), c20Hex(r), c20Hex(sw), 1+rng.Intn(65535), rng.Intn(2), 1+rng.Intn(3000))
 		case x < 13:
@@ -418,6 +427,29 @@ func c20Run(in *bufio.Scanner, w *bufio.Writer) {
 				return strconv.FormatUint(uint64(srvname.New().Sanctuary(string(s)).Realm(string(r)).Swamp(string(sw)).GetFolderNumber(uint16(n2))), 10)
 			})
 			fmt.Fprintf(w, "sdk=%s,%s!%s srv=%s,%s!%s\n", a1, a2, fa, b1, b2, fb)
+		case f[0] == "path2" && len(f) == 10:
+			// two GetFullHashPath calls with different arguments on ONE name object; FRESH = what a new object answers for the second
+			s, o1 := c20Unhex(f[1])
+			r, o2 := c20Unhex(f[2])
+			sw, o3 := c20Unhex(f[3])
+			var a [6]int
+			okA := o1 && o2 && o3
+			for k := 0; k < 6; k++ {
+				v, err := strconv.Atoi(f[4+k])
+				okA = okA && err == nil && v >= 0
+				a[k] = v
+			}
+			if !okA || a[1] > 40 || a[4] > 40 {
+				bad()
+				continue
+			}
+			vn := srvname.New().Sanctuary(string(s)).Realm(string(r)).Swamp(string(sw))
+			p1 := c20Try(func() string { return vn.GetFullHashPath("/r", uint64(a[0]), a[1], a[2]) })
+			p2 := c20Try(func() string { return vn.GetFullHashPath("/r", uint64(a[3]), a[4], a[5]) })
+			pf := c20Try(func() string {
+				return srvname.New().Sanctuary(string(s)).Realm(string(r)).Swamp(string(sw)).GetFullHashPath("/r", uint64(a[3]), a[4], a[5])
+			})
+			fmt.Fprintf(w, "p1=%s p2=%s!%s\n", p1, p2, pf)
 		case f[0] == "chain" && len(f) == 7:
 			// builder chain with calls on the intermediate objects: a child must not inherit what its parent memoised
 			s, o1 := c20Unhex(f[1])
